@@ -43,7 +43,7 @@ def fake_prepend_zdir(zdir, path):
     return hx.FakePath(p, FS[0])
 
 
-hx.set(c, "prepend_zdir", fake_prepend_zdir)
+hx.put(c, "prepend_zdir", fake_prepend_zdir)
 INIT_CALLS = []
 
 
@@ -54,7 +54,7 @@ def fake_init_from_template(zdir, tpm, new_path, **kw):
         p.write_text(TEMPLATE_TEXT)
 
 
-hx.set(nu, "init_from_template", fake_init_from_template)
+hx.put(nu, "init_from_template", fake_init_from_template)
 
 
 def compile_text(text, path):
